@@ -298,7 +298,8 @@ class Ctx(object):
             av = _to_float_array(a)
             bv = _to_float_array(b)
             self.records.append((label, av))
-            if not _close(av, bv, self.S.conc_rtol if tol is None else max(tol, self.S.conc_rtol)):
+            ctol = tol[0] if isinstance(tol, tuple) else tol
+            if not _close(av, bv, self.S.conc_rtol if ctol is None else max(ctol, self.S.conc_rtol)):
                 self.failures.append((label, 'observed %s expected %s' % (_short(av), _short(bv))))
 
     def _taint_check(self, label, lt):
